@@ -65,7 +65,7 @@ def gen_curves(ctx):
     rng = ctx.rng
     th = ctx.tier == "thorough"
     cases, weights, keysets = [], [], []
-    ncurves = 4000 if th else 48
+    ncurves = 4000 if th else 80
     for ci in range(ncurves):
         n = rng.choice([2, 2, 3, 3, 4, 5, 6, 7, 8, 9, 10, 11, 12])
         spacing, ks = cr.gen_keys(rng, n)
